@@ -147,6 +147,11 @@ func (l *PythonBaseLexer) HandleSpaces() {
 			}
 		}
 
+		if l.GetInputStream().LA(1) == antlr.TokenEOF {
+			// a last line of blanks only (no line end behind it) is a blank line, not an indentation
+			indent = 0
+		}
+
 		l.ProcessNewLine(indent)
 	}
 
